@@ -1,8 +1,14 @@
 #!/bin/bash
-# usage: seedrun.sh <property id> <patch.diff> [tier]  -- applies the patch to /repo, runs the check, reverts.
+# usage: seedrun.sh <property id> <patch.diff> [tier]
+# Runs the property's check against a scratch worktree of /repo HEAD with the patch applied (VERIF_REPO), so
+# that /repo itself is never touched; evidence and replays of such runs go to a scratch directory.
 set -u
 ID="$1"; P="$2"; TIER="${3:-quick}"
-cd /repo && git apply "$P" || { echo "$ID $P: PATCH DOES NOT APPLY"; exit 9; }
-cd /verif && ./check "$ID" "$TIER" > /tmp/seedrun_$ID.log 2>&1; rc=$?
-git -C /repo checkout -- . ; git -C /repo status --short | head -3
-echo "$ID $P ($TIER): exit $rc; $(grep -c '^VIOLATION' /tmp/seedrun_$ID.log) VIOLATION lines; $(grep -m1 'counterexample:' /tmp/seedrun_$ID.log)"
+W=$(mktemp -d /tmp/seedrun.XXXXXX); rmdir "$W"
+git -C /repo worktree add -q --detach "$W" HEAD || exit 9
+if ! git -C "$W" apply "$P"; then echo "$ID $P: PATCH DOES NOT APPLY"; git -C /repo worktree remove --force "$W"; exit 9; fi
+mkdir -p /tmp/seedrun_out
+LOG=/tmp/seedrun_out/$(basename $(dirname "$P"))_$ID.log
+cd /verif && VERIF_REPO="$W" VERIF_EVIDENCE_DIR=/tmp/seedrun_out/ev VERIF_REPLAY_DIR=/tmp/seedrun_out/replays ./check "$ID" "$TIER" > "$LOG" 2>&1; rc=$?
+git -C /repo worktree remove --force "$W"
+echo "$ID $P ($TIER): exit $rc; $(grep -c '^VIOLATION' "$LOG") VIOLATION lines; $(grep -m1 'counterexample:' "$LOG" | cut -c1-300)"
